@@ -57,6 +57,8 @@ structure TObs where
   hPanicked : Bool
   /-- the recovery middleware handled a panic (its logger / response handler was called) -/
   recovered : Bool
+  /-- the timeout middleware answered the overrun: its timeout handler was called -/
+  claimed : Bool
   deriving Repr, DecidableEq, Inhabited
 
 def timeoutOK (o : TObs) : Bool :=
@@ -69,13 +71,16 @@ def timeoutOK (o : TObs) : Bool :=
   (!hasT || o.status == some Chunk.t408) &&
   -- well-formed: no bytes that are nobody's document, and no 408 status line in front of somebody else's body
   !o.body.contains Chunk.other && (o.status != some Chunk.t408 || hasT) &&
+  -- exactly one: when the middleware answers the overrun the response is exactly the timeout response, and a
+  -- timeout body comes from nowhere else
+  (!o.claimed || (o.body == [Chunk.t408] && o.status == some Chunk.t408)) && (!hasT || o.claimed) &&
   (!o.hPanicked || o.recovered) &&
   (!o.hPanicked || hasH || hasT || o.status == some Chunk.rec500)
 
 /-- the model state as an observation (meaningful once `R` has returned) -/
 def obsOf (s : St) : TObs :=
   { status := s.status, body := s.body, escaped := false, releasedEarly := s.releasedEarly,
-    hPanicked := s.panicChan.isSome, recovered := s.recovered.isSome }
+    hPanicked := s.panicChan.isSome, recovered := s.recovered.isSome, claimed := s.timedOut }
 
 
 /-! ### which requests the timeout middleware leaves alone (declarative reading of the options) -/
